@@ -20,6 +20,8 @@ use tokio::sync::mpsc;
 #[derive(Serialize, Deserialize, Clone, Debug, PartialEq, Eq, Hash)]
 #[serde(tag = "s")]
 pub enum AStep {
+    /// the task sends a message on a gate of its module
+    Emit { gate: u32 },
     Sleep { d: u64 },
     /// relative to the start of the incarnation
     SleepUntil { at: u64 },
@@ -122,6 +124,10 @@ impl<F: Future> Future for Counted<F> {
         });
         TOTAL_POLLS.with(|p| *p.borrow_mut() += 1);
         let m = self.m;
+        // (twin mode of C13: the tasks of a module that has "fallen silent" do not run any further)
+        if crate::net::twin_mode() && crate::net::module_is_silent(m) {
+            return Poll::Pending;
+        }
         MAX_POLLS.with(|mp| {
             let mut mp = mp.borrow_mut();
             let e = mp.entry(m).or_insert(0);
@@ -267,6 +273,10 @@ async fn run_task(m: usize, ti: usize, inc: u16, start_ns: u64, spec: TaskSpec, 
                         sleep(Duration::from_nanos(*work)).await;
                     }
                 }
+            }
+            AStep::Emit { gate } => {
+                crate::net::task_emit(m, ti, si, inc, *gate);
+                log(si, T_DONE, 0);
             }
             AStep::Notify { to } => {
                 if !outs.is_empty() {
@@ -541,6 +551,10 @@ pub fn evaluate(tasks: &[TaskSpec], start: u64, ext: &[(u64, usize)]) -> Vec<Exp
                             } else {
                                 s.sub += 2;
                             }
+                        }
+                        AStep::Emit { .. } => {
+                            out.push(Expect { task: ti, step: pc, time: now, codes: vec![T_DONE], val: None });
+                            s.pc += 1;
                         }
                         AStep::Notify { to } => {
                             let to = to as usize % n;
@@ -1054,6 +1068,10 @@ pub fn gen_tasks_c09(rng: &mut Rng) -> Vec<TaskSpec> {
 
 pub fn gen_tasks_c13(rng: &mut Rng) -> Vec<TaskSpec> {
     let mut v = Vec::new();
+    // a task that is woken by a handler of its module (Act::NotifyTask) and then sends a message
+    if rng.chance(1, 3) {
+        v.push(TaskSpec { local: rng.chance(1, 3), join: 0, steps: vec![AStep::Wait, AStep::Emit { gate: rng.below(4) as u32 }, AStep::Wait, AStep::Emit { gate: rng.below(4) as u32 }] });
+    }
     for _ in 0..rng.small(2) {
         let ns = 1 + rng.small(5) as usize;
         let steps: Vec<AStep> = (0..ns).map(|_| AStep::Sleep { d: 250 * MS * (1 + rng.below(4)) }).collect();
